@@ -118,8 +118,15 @@ PROPS = {
              'untouched), source not in modifies (untouched), reordering setting restored. dd._copy (generic Function protocol) and '
              'copy_vars are bounded-checked.',
              bounded=['vlib.rtc.c11'], tb=['dd._copy.copy_bdd / copy_bdds_from / copy_vars: bounded only'], design_ref='DESIGN.md 7/C11'),
-    'C12': P('exploration', 'File I/O through pickle/json/shelve: outside any contract. Run-time contracts over generated round trips.',
-             proof=False, bounded=['vlib.rtc.c12'], design_ref='DESIGN.md 7/C12'),
+    'C12': P('other',
+             'Proved: dd.bdd._load / BDD._load, the recursion that rebuilds a pickled node table inside the receiving manager: for a '
+             'well-formed stored table F (second heap) and a level map carrying the ghost assignment across, the returned reference denotes '
+             'the same function as the stored node, with the same sign, the receiving manager stays well formed, no existing node changes, '
+             'and the order is kept. Everything around it (pickle/json/shelve byte formats, _dump/_load_pickle dictionary plumbing, JSON '
+             'reader/writer coroutines, autoref wrappers) is outside any contract: run-time contracts over generated round trips, including '
+             'loading into managers with other orders and other contents.',
+             bounded=['vlib.rtc.c12'], tb=['pickle / json / shelve modules and the file system', '_load_pickle, _dump, dd._copy.* : bounded only'],
+             design_ref='DESIGN.md 7/C12'),
     'C13': P('exploration', 'Relational product against the truth-table composition under the documented preconditions; exhaustive for one pair.',
              proof=False, bounded=['vlib.rtc.c13'], design_ref='DESIGN.md 7/C13'),
     'C14': P('other',
